@@ -45,20 +45,36 @@ import (
 type rowsAPI interface {
 	ReadRows([]parquet.Row) (int, error)
 	SeekToRow(int64) error
-	Reset()
 }
 
 type historyError struct{ msg string }
 
 func (e *historyError) Error() string { return e.msg }
 
-// readN reads up to k rows (a reader may return fewer rows than asked for).
-func readN(r rowsAPI, k int) ([]parquet.Row, error) {
+// readN reads up to k rows into fresh buffers (a reader may return fewer rows
+// than asked for).
+func readN(r rowsAPI, k int) ([]parquet.Row, error) { return readInto(r, nil, k) }
+
+// readInto reads up to k rows.  With buf == nil every call gets a fresh
+// buffer; else every call reads into the first slots of buf, the ONE buffer
+// the caller keeps using (what CopyRows and every read loop do): the rows a
+// call returns are only valid until the next call, so they are cloned here,
+// and whatever the reader left in the slots (capacity, aliasing) is what the
+// next call starts from.
+func readInto(r rowsAPI, buf []parquet.Row, k int) ([]parquet.Row, error) {
 	var out []parquet.Row
 	for guard := 0; len(out) < k && guard < 64; guard++ {
-		buf := make([]parquet.Row, k-len(out))
-		n, err := r.ReadRows(buf)
-		for _, x := range buf[:n] {
+		b := buf
+		if b == nil {
+			b = make([]parquet.Row, k-len(out))
+		} else {
+			b = b[:min(len(b), k-len(out))]
+		}
+		n, err := r.ReadRows(b)
+		if n < 0 || n > len(b) {
+			return out, fmt.Errorf("ReadRows returned %d for a buffer of %d rows", n, len(b))
+		}
+		for _, x := range b[:n] {
 			out = append(out, x.Clone())
 		}
 		if err != nil {
@@ -74,72 +90,192 @@ func readN(r rowsAPI, k int) ([]parquet.Row, error) {
 	return out, nil
 }
 
+// histMode: how a row-level history is driven.
+type histMode struct {
+	batch   int  // > 0: all reads go into one buffer of this many rows; 0: fresh buffers
+	forward bool // the reader only seeks forward and cannot be rewound (ConvertRowReader over a plain reader)
+	drain   bool // finish by reading to the end (in batches), comparing every row
+}
+
+func (m histMode) String() string {
+	s := "fresh buffers"
+	if m.batch > 0 {
+		s = fmt.Sprintf("one buffer of %d rows", m.batch)
+	}
+	if m.forward {
+		s += ", forward seeks"
+	}
+	return s
+}
+
+func genHistMode(rng *rand.Rand, forward, drain bool) histMode {
+	m := histMode{forward: forward, drain: drain}
+	if rng.Intn(4) != 0 {
+		m.batch = 1 + rng.Intn(5)
+	}
+	return m
+}
+
 // rowHistory drives r through a history derived from rng; want are the rows r
-// must produce from position 0.  It leaves r rewound.
-func rowHistory(pairs [][2]int, want []parquet.Row, r rowsAPI, rng *rand.Rand) error {
+// must produce from position 0.  It leaves r rewound when r can be rewound.
+func rowHistory(pairs [][2]int, want []parquet.Row, r rowsAPI, rng *rand.Rand, mode histMode) error {
 	n, pos := len(want), 0
-	var trace []string
+	var buf []parquet.Row
+	maxAsk := 4
+	if mode.batch > 0 {
+		buf, maxAsk = make([]parquet.Row, mode.batch), mode.batch
+	}
+	trace := []string{"[" + mode.String() + "]"}
+	read := func(ask int) error {
+		trace = append(trace, fmt.Sprintf("ReadRows(%d)@%d", ask, pos))
+		got, err := readInto(r, buf, ask)
+		exp := min(ask, n-pos)
+		if err != nil && !errors.Is(err, io.EOF) {
+			return &historyError{strings.Join(trace, " ") + ": " + err.Error()}
+		}
+		if len(got) != exp {
+			return &historyError{fmt.Sprintf("%s: %d rows, expected %d", strings.Join(trace, " "), len(got), exp)}
+		}
+		got = canonVariants(pairs, want[pos:pos+exp], got)
+		for i := range got {
+			if w, g := safeCanonRow(want[pos+i]), safeCanonRow(got[i]); w != g {
+				return &historyError{fmt.Sprintf("%s: row %d: want [%s] got [%s]", strings.Join(trace, " "), pos+i, core.Trunc(w, 300), core.Trunc(g, 300))}
+			}
+		}
+		pos += exp
+		return nil
+	}
+	resetter, _ := r.(interface{ Reset() })
 	for step := 2 + rng.Intn(5); step > 0; step-- {
 		switch k := rng.Intn(10); {
 		case k < 5:
-			ask := 1 + rng.Intn(4)
-			trace = append(trace, fmt.Sprintf("ReadRows(%d)@%d", ask, pos))
-			got, err := readN(r, ask)
-			exp := min(ask, n-pos)
-			if err != nil && !errors.Is(err, io.EOF) {
-				return &historyError{strings.Join(trace, " ") + ": " + err.Error()}
+			ask := 1 + rng.Intn(maxAsk)
+			if mode.batch > 0 && rng.Intn(2) == 0 {
+				ask = mode.batch // the whole buffer, like a read loop
 			}
-			if len(got) != exp {
-				return &historyError{fmt.Sprintf("%s: %d rows, expected %d", strings.Join(trace, " "), len(got), exp)}
+			if err := read(ask); err != nil {
+				return err
 			}
-			got = canonVariants(pairs, want[pos:pos+exp], got)
-			for i := range got {
-				if w, g := safeCanonRow(want[pos+i]), safeCanonRow(got[i]); w != g {
-					return &historyError{fmt.Sprintf("%s: row %d: want [%s] got [%s]", strings.Join(trace, " "), pos+i, core.Trunc(w, 300), core.Trunc(g, 300))}
-				}
+		case k < 8 || resetter == nil || mode.forward:
+			if mode.forward {
+				pos += rng.Intn(n - pos + 1)
+			} else {
+				pos = rng.Intn(n + 1)
 			}
-			pos += exp
-		case k < 8:
-			pos = rng.Intn(n + 1)
 			trace = append(trace, fmt.Sprintf("SeekToRow(%d)", pos))
 			if err := r.SeekToRow(int64(pos)); err != nil {
 				return &historyError{strings.Join(trace, " ") + ": " + err.Error()}
 			}
 		default:
 			trace = append(trace, "Reset")
-			r.Reset()
+			resetter.Reset()
 			pos = 0
 		}
 	}
-	r.Reset()
+	if mode.drain {
+		for guard := 0; pos < n && guard <= n; guard++ {
+			if err := read(maxAsk); err != nil {
+				return err
+			}
+		}
+		trace = append(trace, fmt.Sprintf("ReadRows(%d)@%d", maxAsk, pos))
+		if got, err := readInto(r, buf, maxAsk); len(got) != 0 || !errors.Is(err, io.EOF) {
+			return &historyError{fmt.Sprintf("%s: past the last row: %d rows, error %v, expected io.EOF", strings.Join(trace, " "), len(got), err)}
+		}
+	}
+	if resetter != nil && !mode.forward {
+		resetter.Reset()
+	}
 	return nil
 }
 
 func init() {
 	paths = append(paths,
-		pathFn{"NewGenericReader(schema), ReadRows/SeekToRow/Reset history", func(b *built, data []byte, cs *c12Case) ([]parquet.Row, error) {
+		pathFn{name: "NewGenericReader(schema), ReadRows/SeekToRow/Reset history", run: func(b *built, data []byte, cs *c12Case) ([]parquet.Row, error) {
 			f, err := openFile(data)
 			if err != nil {
 				return nil, err
 			}
 			r := parquet.NewGenericReader[any](f, b.ts)
 			defer r.Close()
-			if err := rowHistory(b.pairs, b.want, r, rand.New(rand.NewSource(cs.Seed^0x1234567))); err != nil {
+			rng := rand.New(rand.NewSource(cs.Seed ^ 0x1234567))
+			if err := rowHistory(b.pairs, b.want, r, rng, genHistMode(rng, false, false)); err != nil {
 				return nil, err
 			}
 			return readAll(r, 2+int(cs.Seed%5))
 		}},
-		pathFn{"NewReader(schema), ReadRows/SeekToRow/Reset history", func(b *built, data []byte, cs *c12Case) ([]parquet.Row, error) {
+		pathFn{name: "NewReader(schema), ReadRows/SeekToRow/Reset history", run: func(b *built, data []byte, cs *c12Case) ([]parquet.Row, error) {
 			f, err := openFile(data)
 			if err != nil {
 				return nil, err
 			}
 			r := parquet.NewReader(f, b.ts)
 			defer r.Close()
-			if err := rowHistory(b.pairs, b.want, r, rand.New(rand.NewSource(cs.Seed^0x7654321))); err != nil {
+			rng := rand.New(rand.NewSource(cs.Seed ^ 0x7654321))
+			if err := rowHistory(b.pairs, b.want, r, rng, genHistMode(rng, false, false)); err != nil {
 				return nil, err
 			}
 			return readAll(r, 1+int(cs.Seed%4))
+		}},
+		// the conversion wrappers themselves: ConvertRowReader puts a
+		// forward-only seeker (row.go forwardRowSeeker) in front of any source
+		// reader; the rows of a converted row group seek in the rows of the
+		// source row group.  Both convert in place, in the caller's buffer.
+		pathFn{name: "ConvertRowReader, SeekToRow/ReadRows history", historyOnly: true, run: func(b *built, data []byte, cs *c12Case) ([]parquet.Row, error) {
+			rng := rand.New(rand.NewSource(cs.Seed ^ 0x2468ACE))
+			var src parquet.RowReader = &sliceReader{rows: b.rows, schema: b.ss}
+			var from parquet.Node = b.ss
+			if rng.Intn(2) == 0 { // the rows of the file (one or two row groups) instead of rows in memory
+				f, err := openFile(data)
+				if err != nil {
+					return nil, err
+				}
+				fr := parquet.NewGenericReader[any](f)
+				defer fr.Close()
+				src, from = fr, f.Schema()
+			}
+			conv, err := parquet.Convert(b.ts, from)
+			if err != nil {
+				return nil, err
+			}
+			r, ok := parquet.ConvertRowReader(src, conv).(rowsAPI)
+			if !ok {
+				return nil, fmt.Errorf("ConvertRowReader does not return a parquet.RowSeeker")
+			}
+			return nil, rowHistory(b.pairs, b.want, r, rng, genHistMode(rng, true, true))
+		}},
+		pathFn{name: "ConvertRowGroup.Rows, SeekToRow/ReadRows history", historyOnly: true, run: func(b *built, data []byte, cs *c12Case) ([]parquet.Row, error) {
+			rng := rand.New(rand.NewSource(cs.Seed ^ 0x13579BD))
+			f, err := openFile(data)
+			if err != nil {
+				return nil, err
+			}
+			conv, err := parquet.Convert(b.ts, f.Schema())
+			if err != nil {
+				return nil, err
+			}
+			off := 0
+			for gi, rg := range f.RowGroups() {
+				n := int(rg.NumRows())
+				if off+n > len(b.want) {
+					return nil, fmt.Errorf("row group %d ends at row %d of %d", gi, off+n, len(b.want))
+				}
+				rows := parquet.ConvertRowGroup(rg, conv).Rows()
+				err := rowHistory(b.pairs, b.want[off:off+n], rows, rng, genHistMode(rng, false, true))
+				rows.Close()
+				if err != nil {
+					var he *historyError
+					if errors.As(err, &he) {
+						return nil, &historyError{fmt.Sprintf("row group %d (rows %d..%d): %s", gi, off, off+n-1, he.msg)}
+					}
+					return nil, err
+				}
+				off += n
+			}
+			if off != len(b.want) {
+				return nil, &historyError{fmt.Sprintf("the row groups hold %d rows of %d", off, len(b.want))}
+			}
+			return nil, nil
 		}},
 	)
 }
@@ -503,7 +639,8 @@ func histories(c *core.Ctx) {
 		for k := 2 + c.Rng.Intn(2); k > 0; k-- {
 			var es []edit
 			if c.Rng.Intn(5) != 0 {
-				ops := [][]string{{"del", "add", "perm"}, {"del"}, {"del", "perm"}}[c.Rng.Intn(3)]
+				// "opt": a struct field of the file read into a pointer field of the view
+				ops := [][]string{{"del", "add", "perm", "opt"}, {"del"}, {"del", "perm"}, {"opt", "add"}}[c.Rng.Intn(4)]
 				es = genEdits(c.Rng, src, 1+c.Rng.Intn(4), ops)
 				for j := range es {
 					if es[j].Node != nil {
